@@ -5,6 +5,18 @@ def _normalize(v):
     return np.nan_to_num(v / np.sqrt((v**2).sum(axis=1, keepdims=True)))
 
 
+def as_float_points(points):
+    r"""
+    Integer typed coordinates (pixel indices, integer literals) are converted
+    to floating point so that the geometry is not computed in wrapping or
+    truncating integer arithmetic. Floating point coordinates are returned
+    as they are.
+    """
+    if points.dtype.kind == "f":
+        return points
+    return points.astype(np.float64)
+
+
 def compute_face_normals(points, trilist):
     """
     Compute per-face normals of the vertices given a list of
@@ -23,7 +35,7 @@ def compute_face_normals(points, trilist):
         The normal per face.
     :return:
     """
-    pt = points[trilist]
+    pt = as_float_points(points)[trilist]
     a, b, c = pt[:, 0], pt[:, 1], pt[:, 2]
     norm = np.cross(b - a, c - a)
     return _normalize(norm)
@@ -48,7 +60,7 @@ def compute_vertex_normals(points, trilist):
     """
     face_normals = compute_face_normals(points, trilist)
 
-    vertex_normals = np.zeros(points.shape, dtype=points.dtype)
+    vertex_normals = np.zeros(points.shape, dtype=face_normals.dtype)
     np.add.at(vertex_normals, trilist[:, 0], face_normals)
     np.add.at(vertex_normals, trilist[:, 1], face_normals)
     np.add.at(vertex_normals, trilist[:, 2], face_normals)
